@@ -184,6 +184,12 @@ type State struct {
 	faultAt  int // random-source failure injected at this read (-1 = never)
 	cutDone  bool
 	initDone bool
+	frecs    []*frameRec // active frame-condition records (FrameBegin / FrameUnchanged)
+}
+
+type frameRec struct {
+	ids   map[int]bool
+	dirty []string
 }
 
 type choice struct {
@@ -217,6 +223,10 @@ func (st *State) clone() *State {
 		randCnt:  st.randCnt,
 		faultAt:  st.faultAt,
 		initDone: st.initDone,
+	}
+	for _, f := range st.frecs {
+		nf := &frameRec{ids: f.ids, dirty: append([]string(nil), f.dirty...)}
+		n.frecs = append(n.frecs, nf)
 	}
 	for k, v := range st.heap {
 		n.heap[k] = v
